@@ -120,6 +120,9 @@ def build(X):
     rn.rewrite_re("R8", r"name\s*\.as_ref\(\)\s*\.map_or\(true, \|n\| self\.relation_instance_names\.contains\(n\)\)",
                   "(match name.as_ref() { None => true, Some(n) => self.relation_instance_names.contains(n) })", count=None,
                   why="Option::map_or with a closure desugared to a match")
+    rn.rewrite_re("R8", r"name\s*\.as_ref\(\)\s*\.is_some_and\(\|n\| self\.relation_instance_names\.contains\(n\)\)",
+                  "(match name.as_ref() { None => false, Some(n) => self.relation_instance_names.contains(n) })", count=None,
+                  why="Option::is_some_and with a closure desugared to a match")
     rn.rewrite_re("R5", r"\bname\.clone\(\)\.unwrap\(\)", "clone_opt_string(&*name).unwrap()", count=None, why="Option<String>::clone")
     rn.rewrite_re("R5", r"\bname\.clone\(\)", "clone_string(&name)", count=None, why="String::clone")
     rn.text = ("impl RelVarNameAssigner {\n#[verifier::exec_allows_no_decreases_clause]\n"
